@@ -39,12 +39,7 @@ fn harness_dir() -> PathBuf {
 const CONFIGS: [(&str, &[&str]); 3] = [("none", &[]), ("std", &["--features", "std"]), ("ser", &["--features", "std,serialize"])];
 
 fn cargo(args: &[&str], target: &str) -> (bool, String) {
-    let out = Command::new("cargo")
-        .args(args)
-        .current_dir(harness_dir().join("cfgdiff"))
-        .env("CARGO_TARGET_DIR", harness_dir().join(target))
-        .env("CARGO_NET_OFFLINE", "true")
-        .output();
+    let out = output_with_progress(Command::new("cargo").args(args).current_dir(harness_dir().join("cfgdiff")).env("CARGO_TARGET_DIR", harness_dir().join(target)).env("CARGO_NET_OFFLINE", "true"), 3600, true);
     match out {
         Ok(o) => (o.status.success(), String::from_utf8_lossy(&o.stderr).to_string()),
         Err(e) => (false, format!("cannot run cargo: {}", e)),
@@ -101,7 +96,7 @@ fn run_bins_env(corpus: &PathBuf, closed_stderr: bool) -> Result<Vec<(String, St
                 Err(_) => return Ok(Vec::new()),
             }
         }
-        let o = cmd.output();
+        let o = output_with_progress(&mut cmd, 7200, !closed_stderr);
         match o {
             Ok(o) if o.status.success() => outs.push((name.to_string(), String::from_utf8_lossy(&o.stdout).to_string())),
             Ok(o) => return fail(format!("C18:run:{}", name), format!("cfgdiff built with feature set `{}` crashed: {} {}", name, o.status, trunc(&String::from_utf8_lossy(&o.stderr)))),
@@ -169,6 +164,53 @@ fn run(ctx: &Ctx) {
             let mut b = e.buf;
             b.truncate(1200);
             inputs.push(b);
+        }
+        // runs of near-duplicates: cfgdiff also reports what `==` says about the values decoded from consecutive inputs, so the corpus
+        // holds messages next to their closest neighbours (extension block absent / empty / present, one body byte changed), bare and
+        // inside a record
+        for i in 0..500u64 {
+            let data = vmodel::tape::fill(seed ^ 0xC18D ^ (i << 20), 400);
+            let mut t = Tape::new(&data);
+            let kind = [1usize, 2, 1, 3, 6, 2][(i % 6) as usize];
+            let h = if i % 5 == 4 { gen_hs(&mut t, 200) } else { gen_hs_kind(&mut t, kind, 200) };
+            let mut variants: Vec<MHs> = vec![h.clone()];
+            let with_ext = |h: &MHs, x: Option<Vec<u8>>| {
+                let mut v = h.clone();
+                match &mut v {
+                    MHs::ClientHello { ext, .. } | MHs::ServerHello { ext, .. } | MHs::ServerHelloD18 { ext, .. } | MHs::HelloRetryRequest { ext, .. } => *ext = x,
+                    _ => {}
+                }
+                v
+            };
+            variants.push(with_ext(&h, None));
+            variants.push(with_ext(&h, Some(vec![])));
+            variants.push(with_ext(&h, Some(vec![0, 23, 0, 0])));
+            variants.push(with_ext(&h, None));
+            let in_record = i % 2 == 1;
+            let mut push = |bytes: Vec<u8>| {
+                let mut b = if in_record {
+                    let mut e = Enc::new();
+                    e.u8(0x16);
+                    e.u16(0x0303);
+                    e.vec(2, "rec.len", &bytes);
+                    e.buf
+                } else {
+                    bytes
+                };
+                b.truncate(1200);
+                inputs.push(b);
+            };
+            for v in &variants {
+                push(v.to_bytes());
+            }
+            // one byte of the body changed
+            let mut b = h.to_bytes();
+            if b.len() > 5 {
+                let pos = 4 + t.below(b.len() - 4);
+                b[pos] ^= 1 + t.below(255) as u8;
+                push(b);
+            }
+            push(h.to_bytes());
         }
         let n = inputs.len();
         let dir = harness_dir().join("target-cfg-corpus");
@@ -279,15 +321,18 @@ fn static_claims(obs: &mut Obs) -> R {
     // `_ => unsafe { ::core::intrinsics::unreachable() }` arm of a derived comparison).
     for (cfg, flags) in [("no_std+alloc", &["--no-default-features"][..]), ("std", &[][..]), ("std+serialize", &["--features", "serialize"][..])] {
         obs.eval();
-        let out = Command::new("cargo")
-            .args(["+nightly", "rustc", "--lib", "--offline", "-q"])
-            .args(flags)
-            .args(["--", "-Zunpretty=expanded"])
-            .current_dir(&repo)
-            .env("CARGO_TARGET_DIR", harness_dir().join("target-expand"))
-            .env("CARGO_NET_OFFLINE", "true")
-            .env_remove("RUSTFLAGS")
-            .output()
+        let out = output_with_progress(
+            Command::new("cargo")
+                .args(["+nightly", "rustc", "--lib", "--offline", "-q"])
+                .args(flags)
+                .args(["--", "-Zunpretty=expanded"])
+                .current_dir(&repo)
+                .env("CARGO_TARGET_DIR", harness_dir().join("target-expand"))
+                .env("CARGO_NET_OFFLINE", "true")
+                .env_remove("RUSTFLAGS"),
+            3600,
+            true,
+        )
             .map_err(|e| Fail { sig: "harness:cargo".into(), msg: format!("{}", e) })?;
         if !out.status.success() || out.stdout.len() < 10_000 {
             // no nightly toolchain / expansion unavailable: this part is skipped and says so (never a violation)
@@ -323,13 +368,7 @@ fn static_claims(obs: &mut Obs) -> R {
     // (once per buildable feature set: a cfg-dependent field type can make a type !Send in one configuration only)
     for (cfg, flags) in [("no_std+alloc", &[][..]), ("std", &["--features", "std"][..]), ("std+serialize", &["--features", "std,serialize"][..])] {
         obs.eval();
-        let out = Command::new("cargo")
-            .args(["check", "--release", "-q"])
-            .args(flags)
-            .current_dir(harness_dir().join("sendsync"))
-            .env("CARGO_TARGET_DIR", harness_dir().join("target-cfg-sendsync"))
-            .env("CARGO_NET_OFFLINE", "true")
-            .output()
+        let out = output_with_progress(Command::new("cargo").args(["check", "--release", "-q"]).args(flags).current_dir(harness_dir().join("sendsync")).env("CARGO_TARGET_DIR", harness_dir().join("target-cfg-sendsync")).env("CARGO_NET_OFFLINE", "true"), 3600, true)
             .map_err(|e| Fail { sig: "harness:cargo".into(), msg: format!("{}", e) })?;
         let err = String::from_utf8_lossy(&out.stderr).to_string();
         if !out.status.success() {
